@@ -161,6 +161,12 @@ func (s *connIDState) isValidStatelessResetToken(resetToken statelessResetToken)
 	}
 	// We currently only use the first available remote connection ID,
 	// so any other reset token is not valid.
+	//
+	// The zero value means the peer has not provided a token for this connection ID
+	// (the ID came from the handshake and there was no stateless_reset_token parameter).
+	if s.remote[0].resetToken == (statelessResetToken{}) {
+		return false
+	}
 	return s.remote[0].resetToken == resetToken
 }
 
